@@ -30,6 +30,9 @@ type c13W struct {
 	Assign    []int  `json:"assign,omitempty"`     // mux: pipeline of item i
 	PipeBuf   []int  `json:"pipe_buf,omitempty"`   // mux: buffer of each pipeline's channels
 	BatchSize int    `json:"batch_size,omitempty"` // batcher
+	// batcher: > 0: request i asks for element id i % IDMod on behalf of its own
+	// traveler (several travelers converging on one element within a batch)
+	IDMod int `json:"id_mod,omitempty"`
 	TimeoutUs int    `json:"timeout_us,omitempty"`
 	GapsUs    []int  `json:"gaps_us,omitempty"`  // batcher: producer gap before item i (µs, simulated)
 	Fanout    []int  `json:"fanout,omitempty"`   // dual: items returned by the loader for request i
@@ -113,6 +116,9 @@ func genC13(r *Rng, tier string) *c13W {
 		w.N = sizesAround(r, w.BatchSize, 2*w.BatchSize, 100/maxi(1, w.Run.CapDiv))
 		if w.N > 400 {
 			w.N = 400
+		}
+		if r.Chance(30) {
+			w.IDMod = 1 + r.Intn(4)
 		}
 		for i := 0; i < w.N; i++ {
 			g := 0
@@ -430,7 +436,11 @@ func execC13once(w *c13W, x *Exec) *Outcome {
 						time.Sleep(time.Duration(w.GapsUs[i]) * time.Microsecond)
 					}
 					hyield("h:prod-send")
-					req <- gdbi.ElementLookup{ID: strconv.Itoa(i)}
+					if w.IDMod > 0 {
+						req <- gdbi.ElementLookup{ID: strconv.Itoa(i % w.IDMod), Ref: trav(i)}
+					} else {
+						req <- gdbi.ElementLookup{ID: strconv.Itoa(i)}
+					}
 				}
 				if w.CloseGap > 0 {
 					time.Sleep(time.Duration(w.CloseGap) * time.Microsecond)
@@ -462,6 +472,15 @@ func execC13once(w *c13W, x *Exec) *Outcome {
 						time.Sleep(time.Duration(w.ConsDelayUs) * time.Microsecond)
 					}
 					for _, e := range b {
+						if w.IDMod > 0 && e.Ref != nil && e.Ref.GetCurrent() != nil {
+							// a request is identified by the traveler it was made for
+							if i, _ := strconv.Atoi(e.Ref.GetCurrent().ID); e.ID == strconv.Itoa(i%w.IDMod) {
+								got = append(got, e.Ref.GetCurrent().ID)
+							} else {
+								got = append(got, fmt.Sprintf("<id %s for traveler %s>", e.ID, e.Ref.GetCurrent().ID))
+							}
+							continue
+						}
 						got = append(got, e.ID)
 					}
 				}
